@@ -446,6 +446,10 @@ class CaseResult:
                                                   'detail': '', 'trivial': 0})
         d['paths'] += 1
         d['secs'] += o.secs
+        if o.backend != 'z3' and o.status == 'discharged':
+            d['backend'] = o.backend if d.get('backend', o.backend) == o.backend else 'z3 + ' + o.backend
+        elif o.status == 'discharged' and d.get('backend') and not d['backend'].startswith('z3'):
+            d['backend'] = 'z3 + ' + d['backend']
         if o.status == 'trivial':
             d['trivial'] += 1
         rank = {'trivial': 0, 'discharged': 0, 'undecided': 1, 'refuted': 2}
@@ -561,6 +565,10 @@ class _Helpers:
     @staticmethod
     def ge(a, b):
         return a >= b or _Helpers.eq(a, b)
+
+    @staticmethod
+    def le_(a, b):
+        return a <= b or _Helpers.eq(a, b)
 
     @staticmethod
     def Pow(h, n):
@@ -957,7 +965,7 @@ class NativeH:
         ns.update(NATIVE_NS_EXTRA)
         ns.update(env)
         ns['__builtins__'] = __builtins__
-        return eval(expr, ns)       # one namespace, so lambdas inside the expression see the bindings
+        return eval(_tolerant(expr), ns)       # one namespace, so lambdas inside the expression see the bindings
 
     def assume(self, expr, /, **env):
         v = self.ev(expr, **env) if isinstance(expr, str) else expr
@@ -995,6 +1003,36 @@ class NativeH:
 
 class _Bag:
     pass
+
+
+class _Tol(ast.NodeTransformer):
+    """contracts are statements over the reals; evaluated on floats,  a == b / a != b / a <= b / a >= b  are taken up to
+    rounding (relative 1e-9): a == b  ->  eq(a, b)  etc.   `is`, `<`, `>`, `in` stay exact."""
+    def visit_Compare(self, node):
+        self.generic_visit(node)
+        if len(node.ops) != 1:
+            return node
+        op = node.ops[0]
+        fn = {ast.Eq: 'eq', ast.LtE: 'le_', ast.GtE: 'ge'}.get(type(op))
+        if isinstance(op, ast.NotEq):
+            call = ast.Call(func=ast.Name(id='eq', ctx=ast.Load()), args=[node.left, node.comparators[0]], keywords=[])
+            return ast.copy_location(ast.UnaryOp(op=ast.Not(), operand=call), node)
+        if fn is None:
+            return node
+        return ast.copy_location(ast.Call(func=ast.Name(id=fn, ctx=ast.Load()), args=[node.left, node.comparators[0]], keywords=[]), node)
+
+
+_TOL_CACHE = {}
+
+
+def _tolerant(expr):
+    c = _TOL_CACHE.get(expr)
+    if c is None:
+        tree = ast.parse(expr.strip(), mode='eval')
+        tree = ast.fix_missing_locations(_Tol().visit(tree))
+        c = compile(tree, '<contract>', 'eval')
+        _TOL_CACHE[expr] = c
+    return c
 
 
 class _Opq:
